@@ -14,11 +14,11 @@ def rules_for(prop):
         return g
     table = {
         "C01": [ag.rule_ag1, ag.rule_ag2, ag.rule_ag3_small, scan.rule_sc1, tm.rule_tm4, seq.rule_fw2],
-        "C02": st.RULES + [ms.rule_ms, tm.rule_tm5],
+        "C02": st.RULES + [ms.rule_ms, tm.rule_tm5, scan.rule_sd1],
         "C03": mx.RULES,
         "C04": [named(grp.rule_eq1, files=("rxsci/operators/group_by.py", "rxsci/state/memory_store.py", "rxsci/state/store.py",
                                            "rxsci/operators/multiplex.py"), min_instances=12), named(grp.rule_fw1, heads=("group_by",)), grp.rule_fl1,
-                named(lv.rule_lv, only=("group_by_mux._group_by.on_subscribe",))],
+                named(lv.rule_lv, only=("group_by_mux._group_by.on_subscribe",)), ms.rule_ms],
         "C05": [grp.rule_roll, named(grp.rule_fw1, heads=("roll_count",)), st.rule_st2_3_4, st.rule_st6,
                 named(lv.rule_lv, only=("roll_mux._roll.subscribe", "roll_mux._roll_count.subscribe"))],
         "C08": [tm.rule_tm123, tm.rule_tm4, tm.rule_tm5, st.rule_st5, mx.rule_mx7],
